@@ -431,6 +431,27 @@ def run(ctx):
         us = PinWords.perm_to_pinword_mapping(len(s))[Perm(s)]
         events.append({"op": "Contains", "w": list(w), "s": list(s), "res": any(PinWords.pinword_contains(w, u) for u in us)})
     opt = optimised_start([rand_word(n) for n in (1, 1, 2, 2, 3, 3, 4, 5, 6, 7, 8, 9)] + [rand_word(rnd.randint(2, 7)) for _ in range(20 if quick else 200)])
+    # patterns of length 4-5 made of points of the pin permutation of a word of length 7-9 (contained by construction):
+    # staircase words after two equal numerals, and random ones
+    for it in range(300 if quick else 3000):
+        if it % 2 == 0:
+            num = rnd.choice("1234")
+            a, b = rnd.choice([("U", "L"), ("U", "R"), ("L", "U"), ("R", "U"), ("D", "L"), ("D", "R"), ("L", "D"), ("R", "D")])
+            w = num * 2 + "".join((a, b)[i % 2] for i in range(rnd.randint(5, 7)))
+        else:
+            w = rand_word(rnd.randint(7, 9))
+        st, P = util.call(PinWords.pinword_to_perm, w)
+        if st == "raise":
+            continue
+        for _ in range(3):
+            k = rnd.choice([4, 5, 5])
+            idx = sorted(rnd.sample(range(len(P)), k))
+            s = Perm.to_standard([P[i] for i in idx])
+            st, us = util.call(lambda: PinWords.perm_to_pinword_mapping(len(s))[s])
+            if st == "raise":
+                ctx.violation({"kind": "trace-event", "w": w, "sigma": list(s)}, "TablesInverse", "the pin words of a sub-permutation of a pin permutation", us)
+                continue
+            events.append({"op": "Found", "w": list(w), "s": list(s), "res": any(PinWords.pinword_contains(w, u) for u in us)})
     nold = len(events)
     events += long_events(ctx, rnd, quick, rand_word)
     ctx.note("single_purpose_events", {op: sum(1 for e in events[nold:] if e["op"] == op) for op in ("Quad", "Factors", "SpToM", "MToSp", "Occ", "OccSP")})
